@@ -101,3 +101,4 @@ def run(ctx):
             gs = lib.sites_reaching(b, ['db::CommitOverlay::get', 'db::CommitOverlay::get_size'])
             lib.precedes(ctx, '6c key-hashed-before-lookup %s' % fn, b, hs, [g for g in gs if any(call_matches(b.term(g), ['re:and_then']) for _ in [0])] or gs[:1],
                          'the key is hashed with the column hasher before the overlay lookup in the hash arm')
+    shared.one_salt_per_handle(ctx, '8')
